@@ -150,7 +150,8 @@ Proof.
 Qed.
 
 (* ---------- the simulation relation ---------- *)
-Record Rel (s : rstate) (v : view) : Prop := {
+(* everything except the completeness flag: this part is untouched by refills *)
+Record Rel0 (s : rstate) (v : view) : Prop := {
   r_inv : Inv s;
   r_pob : PobOk s;
   r_nolie : NoLie (events (src s));
@@ -160,34 +161,39 @@ Record Rel (s : rstate) (v : view) : Prop := {
            else vfail v = snd (stream_of (src s)) /\ io_error s = None /\ vtaken v = false;
   r_cur : vcur v = g_consumed s;
   r_mark : vmark v = g_mark s;
-  r_known : vknown v = true -> g_terminal s = true;
   r_hwm : vhwm v <= g_consumed s + valid_len s
 }.
+
+(* between the operations of a program the reader is complete exactly when a peek has come back empty *)
+Definition Rel (s : rstate) (v : view) : Prop := Rel0 s v /\ vknown v = g_terminal s.
 
 (* the initial states are related: any honest source, any chunk size >= 1 *)
 Lemma Rel_init sr c :
   NoLie (events sr) -> 1 <= c ->
   Rel (set_chunk (reader_init sr) c) (view_init (fst (stream_of sr)) (snd (stream_of sr))).
 Proof.
-  intros HN Hc. constructor; cbn [set_chunk reader_init view_init src chunk_size g_delivered g_terminal io_error
+  intros HN Hc. split; [|reflexivity].
+  constructor; cbn [set_chunk reader_init view_init src chunk_size g_delivered g_terminal io_error
     g_consumed g_mark valid_len vS vfail vtaken vcur vmark vknown vhwm app]; auto; try lia; try discriminate.
   - destruct (Inv_init sr). constructor; assumption.
   - unfold PobOk, W64; cbn; lia.
 Qed.
 
-Lemma Rel_prep s v : Rel s v -> Rel (prep s) v.
+Lemma Rel_prep s v : Rel0 s v -> Rel0 (prep s) v.
 Proof.
-  intros [HI HP HN HC HS HF Hcur Hm Hk Hh]. constructor; auto.
+  intros [HI HP HN HC HS HF Hcur Hm Hh]. constructor; auto.
   - apply Inv_prep; exact HI.
   - apply PobOk_prep; exact HP.
 Qed.
 
-(* a refill never changes the view *)
+(* a refill never changes the view; it turns the reader terminal only without adding data *)
 Lemma Rel_request_more s v :
-  Rel s v -> exists b s', request_more s = RMDone b s' /\ Rel s' v /\ valid_len s <= valid_len s'.
+  Rel0 s v -> exists b s', request_more s = RMDone b s' /\ Rel0 s' v /\ valid_len s <= valid_len s' /\
+                           (g_terminal s' = g_terminal s \/ (valid_len s' = valid_len s /\ complete s' = true)).
 Proof.
-  intros HR. pose proof HR as [HI HP HN HC HS HF Hcur Hm Hk Hh].
-  unfold request_more. destruct (complete s) eqn:Hc; [exists false, s; split; [reflexivity|split; [exact HR|lia]]|].
+  intros HR. pose proof HR as [HI HP HN HC HS HF Hcur Hm Hh].
+  unfold request_more. destruct (complete s) eqn:Hc;
+    [exists false, s; split; [reflexivity|split; [exact HR|split; [lia|left; reflexivity]]]|].
   pose proof (inv_range s HI) as Hr. pose proof Hr as Hr'. apply N.leb_le in Hr'. rewrite Hr', andb_false_r.
   assert (Hterm : g_terminal s = false) by (rewrite <- (inv_compl s HI); exact Hc).
   rewrite Hterm in HS, HF. destruct HF as (HF1 & HF2 & HF3).
@@ -210,7 +216,8 @@ Proof.
     destruct (cl =? 0) eqn:Hcz.
     + (* end of input *)
       apply N.eqb_eq in Hcz. specialize (Hz Hcz). cbn [rm_state] in HIf.
-      eexists true, _. split; [reflexivity|]. split; [|cbn [after_read valid_len]; lia].
+      eexists true, _. split; [reflexivity|].
+      split; [|split; [cbn [after_read valid_len]; lia|right; cbn [after_read valid_len complete]; split; reflexivity]].
       assert (bs = []) as -> by (apply nlen_zero_nil; lia).
       constructor; cbn [after_read src chunk_size g_delivered g_terminal io_error g_consumed g_mark valid_len
         pos_of_buf]; auto.
@@ -220,16 +227,17 @@ Proof.
       all: try (change (g_consumed (prep s)) with (g_consumed s); lia).
     + apply N.eqb_neq in Hcz. specialize (Hnz Hcz).
       assert ((chunk_size s <? cl) = false) as Hnb by (apply N.ltb_ge; lia). rewrite Hnb in *.
-      cbn [rm_state] in HIf. eexists true, _. split; [reflexivity|]. split; [|cbn [after_read valid_len]; lia].
+      cbn [rm_state] in HIf. eexists true, _. split; [reflexivity|].
+      split; [|split; [cbn [after_read valid_len]; lia|left; reflexivity]].
       constructor; cbn [after_read src chunk_size g_delivered g_terminal io_error g_consumed g_mark valid_len
         pos_of_buf]; auto; rewrite ?Hterm.
       all: try exact (PobOk_prep s HP).
       all: try (rewrite HS, Hnz; cbn [fst]; apply app_assoc).
       all: try (rewrite HF1, Hnz; cbn [snd]; auto; fail).
-      all: try (intros H; specialize (Hk H); congruence).
       all: try (change (g_consumed (prep s)) with (g_consumed s); lia).
   - (* the source failed *)
-    cbn [rm_state] in HIf. eexists true, _. split; [reflexivity|]. split; [|cbn [after_read valid_len]; lia].
+    cbn [rm_state] in HIf. eexists true, _. split; [reflexivity|].
+    split; [|split; [cbn [after_read valid_len]; lia|right; cbn [after_read valid_len complete]; split; reflexivity]].
     constructor; cbn [after_read src chunk_size g_delivered g_terminal io_error g_consumed g_mark valid_len
       pos_of_buf]; auto.
     all: try exact (PobOk_prep s HP).
@@ -239,18 +247,34 @@ Proof.
 Qed.
 
 Lemma Rel_fill_until fuel : forall need s v,
-  Rel s v ->
+  Rel0 s v ->
   match fill_until fuel need s with
-  | LDone s' | LFuel s' => Rel s' v /\ valid_len s <= valid_len s'
+  | LDone s' | LFuel s' =>
+      Rel0 s' v /\ valid_len s <= valid_len s' /\ (need <= valid_len s' -> g_terminal s' = g_terminal s)
   | LPanic _ _ => False
   end.
 Proof.
   induction fuel as [|f IH]; intros need s v HR; cbn [fill_until].
-  - destruct (need <=? valid_len s); split; auto; lia.
-  - destruct (need <=? valid_len s); [split; auto; lia|].
-    destruct (Rel_request_more s v HR) as (b & s' & Hrm & HR' & Hv). rewrite Hrm.
-    destruct b; [|split; auto].
-    specialize (IH need s' v HR'). destruct (fill_until f need s'); try exact IH; destruct IH; split; auto; lia.
+  - destruct (need <=? valid_len s); (split; [exact HR|split; [lia|intros; reflexivity]]).
+  - destruct (need <=? valid_len s) eqn:Hn; [split; [exact HR|split; [lia|intros; reflexivity]]|]. apply N.leb_gt in Hn.
+    destruct (Rel_request_more s v HR) as (b & s' & Hrm & HR' & Hv & Ht). rewrite Hrm.
+    destruct b; [|split; [exact HR'|split; [exact Hv|intros Hge; destruct Ht as [Ht|[Hvl _]]; [exact Ht|lia]]]].
+    specialize (IH need s' v HR').
+    destruct (fill_until f need s') as [s2|p s2|s2] eqn:Hf2; try exact IH.
+    + destruct IH as (H1 & H2 & H3). split; [exact H1|]. split; [lia|]. intros Hge.
+      destruct Ht as [Ht|[Hvl Hcm]]; [rewrite (H3 Hge); exact Ht|].
+      (* the reader turned terminal without new data: the loop stops short of `need` *)
+      exfalso. destruct f as [|f']; cbn [fill_until] in Hf2.
+      * assert ((need <=? valid_len s') = false) as E by (apply N.leb_gt; lia). rewrite E in Hf2. discriminate.
+      * assert ((need <=? valid_len s') = false) as E by (apply N.leb_gt; lia). rewrite E in Hf2.
+        unfold request_more in Hf2. rewrite Hcm in Hf2. inversion Hf2; subst. lia.
+    + destruct IH as (H1 & H2 & H3). split; [exact H1|]. split; [lia|]. intros Hge.
+      destruct Ht as [Ht|[Hvl Hcm]]; [rewrite (H3 Hge); exact Ht|].
+      exfalso. destruct f as [|f']; cbn [fill_until] in Hf2.
+      * assert ((need <=? valid_len s') = false) as E by (apply N.leb_gt; lia). rewrite E in Hf2.
+        inversion Hf2; subst. lia.
+      * assert ((need <=? valid_len s') = false) as E by (apply N.leb_gt; lia). rewrite E in Hf2.
+        unfold request_more in Hf2. rewrite Hcm in Hf2. discriminate.
 Qed.
 
 Lemma nnth_app_l {A} (a b : list A) i : i < nlen a -> nnth (a ++ b) i = nnth a i.
@@ -258,7 +282,7 @@ Proof. intros H. unfold nnth, nlen in *. apply nth_error_app1. lia. Qed.
 
 (* what a buffered byte is, in terms of the view *)
 Lemma Rel_buffered_byte s v k :
-  Rel s v -> k < valid_len s -> nnth (buf s) (pos_in_buf s + k) = vpeek v k.
+  Rel0 s v -> k < valid_len s -> nnth (buf s) (pos_in_buf s + k) = vpeek v k.
 Proof.
   intros HR Hk. pose proof (r_inv _ _ HR) as HI.
   rewrite (peek_buffered s k HI Hk). unfold unread, vpeek. rewrite (r_S _ _ HR), (r_cur _ _ HR).
@@ -268,42 +292,44 @@ Qed.
 Lemma Rel_peek s v k :
   Rel s v -> exists s', peek s k = (s', VOptByte (vpeek v k)) /\ Rel s' (after_peek v k).
 Proof.
-  intros HR.
-  assert (Hafter : forall s', Rel s' v -> k < valid_len s' -> Rel s' (after_peek v k)).
-  { intros s' [HI HP HN HC HS HF Hcur Hm Hk Hh] Hlt.
+  intros [HR Hkn].
+  assert (Hafter : forall s', Rel0 s' v -> g_terminal s' = g_terminal s -> k < valid_len s' -> Rel s' (after_peek v k)).
+  { intros s' HR' Hterm Hlt. pose proof HR' as [HI HP HN HC HS HF Hcur Hm Hh].
     assert (Hsome : exists b, vpeek v k = Some b).
     { unfold vpeek. apply nnth_in_range. rewrite HS, nlen_app, Hcur. pose proof (inv_count s' HI). lia. }
-    destruct Hsome as [b Hb].
-    constructor; cbn [after_peek vS vfail vcur vmark vtaken vknown vhwm]; auto; rewrite ?Hb; auto. lia. }
+    destruct Hsome as [b Hb]. split.
+    - constructor; cbn [after_peek vS vfail vcur vmark vtaken vknown vhwm]; auto; rewrite ?Hb; auto. lia.
+    - cbn [after_peek vknown]. rewrite Hb. congruence. }
   unfold peek. destruct (k <? valid_len s) eqn:Hk.
   - apply N.ltb_lt in Hk. rewrite (Rel_buffered_byte s v k HR Hk).
     assert (Hsome : exists b, vpeek v k = Some b).
     { unfold vpeek. apply nnth_in_range. rewrite (r_S _ _ HR), nlen_app, (r_cur _ _ HR).
       pose proof (inv_count s (r_inv _ _ HR)). lia. }
-    destruct Hsome as [b Hb]. rewrite Hb. exists s. split; [reflexivity|]. apply Hafter; assumption.
+    destruct Hsome as [b Hb]. rewrite Hb. exists s. split; [reflexivity|]. apply Hafter; auto.
   - pose proof (Rel_fill_until (loop_fuel s) (k + 1) s v HR) as Hf.
     pose proof (fill_until_no_fuel (loop_fuel s) (k + 1) s (loop_fuel_enough s)) as Hnf.
     destruct (fill_until (loop_fuel s) (k + 1) s) as [s'|p s'|s'] eqn:Hfu; [|contradiction|exfalso; eapply Hnf; reflexivity].
-    destruct Hf as [HR' _].
+    destruct Hf as (HR' & _ & Hterm).
     destruct (k <? valid_len s') eqn:Hk'.
     + apply N.ltb_lt in Hk'. rewrite (Rel_buffered_byte s' v k HR' Hk').
       assert (Hsome : exists b, vpeek v k = Some b).
       { unfold vpeek. apply nnth_in_range. rewrite (r_S _ _ HR'), nlen_app, (r_cur _ _ HR').
         pose proof (inv_count s' (r_inv _ _ HR')). lia. }
-      destruct Hsome as [b Hb]. rewrite Hb. exists s'. split; [reflexivity|]. apply Hafter; assumption.
+      destruct Hsome as [b Hb]. rewrite Hb. exists s'. split; [reflexivity|]. apply Hafter; auto. apply Hterm. lia.
     + (* the loop gave up: the source has ended, nothing is there *)
       apply N.ltb_ge in Hk'.
       destruct (fill_until_done _ _ _ _ Hfu) as [Hge|Hcomp]; [lia|].
-      pose proof HR' as [HI HP HN HC HS HF Hcur Hm Hkn Hh].
-      assert (Hterm : g_terminal s' = true) by (rewrite <- (inv_compl s' HI); exact Hcomp).
-      rewrite Hterm in HS, HF. rewrite app_nil_r in HS.
+      pose proof HR' as [HI HP HN HC HS HF Hcur Hm Hh].
+      assert (Hterm' : g_terminal s' = true) by (rewrite <- (inv_compl s' HI); exact Hcomp).
+      rewrite Hterm' in HS, HF. rewrite app_nil_r in HS.
       assert (Hnone : vpeek v k = None).
       { unfold vpeek. apply nnth_beyond. rewrite HS, Hcur. pose proof (inv_count s' HI). lia. }
-      rewrite Hnone. exists s'. split; [reflexivity|].
-      constructor; cbn [after_peek vS vfail vcur vmark vtaken vknown vhwm]; auto; rewrite ?Hnone; auto.
-      * rewrite Hterm, app_nil_r. exact HS.
-      * rewrite Hterm. exact HF.
-      * rewrite HS. pose proof (inv_count s' HI). lia.
+      rewrite Hnone. exists s'. split; [reflexivity|]. split.
+      * constructor; cbn [after_peek vS vfail vcur vmark vtaken vknown vhwm]; auto; rewrite ?Hnone; auto.
+        -- rewrite Hterm', app_nil_r. exact HS.
+        -- rewrite Hterm'. exact HF.
+        -- rewrite HS. pose proof (inv_count s' HI). lia.
+      * cbn [after_peek vknown]. rewrite Hnone. symmetry. exact Hterm'.
 Qed.
 
 (* ---------- the simulation theorem ---------- *)
@@ -323,7 +349,7 @@ Proof.
 Qed.
 
 Lemma Rel_load8 s v off :
-  Rel s v -> off + 8 <= valid_len s ->
+  Rel0 s v -> off + 8 <= valid_len s ->
   window (buf s) (pos_in_buf s + off) 8 = window (vS v) (vcur v + off) 8.
 Proof.
   intros HR H. pose proof (r_inv _ _ HR) as HI.
@@ -341,7 +367,7 @@ Qed.
 
 Theorem simulation {A} (p : prog A) : forall s v, Rel s v -> exists r, aruns p v r /\ refines (crun p s) r.
 Proof.
-  induction p as [a|k c IH|n c IH|n c IH|off c IH|c IH|c IH|c IH|c IH|c IH|c IH|k|]; intros s v HR; cbn [crun].
+  induction p as [a|k c IH|n c IH|off c IH|c IH|c IH|c IH|c IH|c IH|c IH|k|]; intros s v HR; cbn [crun].
   - (* Ret *) exists (ADone a v). split; [constructor|]. exists s. split; [reflexivity|exact HR].
   - (* Peek *)
     destruct (Rel_peek s v k HR) as (s' & Hp & HR'). rewrite Hp.
@@ -349,93 +375,87 @@ Proof.
     exists r. split; [constructor; exact Hr|exact Href].
   - (* Advance *)
     destruct (N.le_gt_cases (vcur v + n) (vhwm v)) as [Hle|Hgt].
-    + pose proof HR as [HI HP HN HC HS HF Hcur Hm Hk Hh].
+    + pose proof HR as [[HI HP HN HC HS HF Hcur Hm Hh] Hk].
       assert (Hn : n <= valid_len s) by lia.
       unfold advance. assert ((valid_len s <? n) = false) as -> by (apply N.ltb_ge; exact Hn).
       set (s' := upd_adv s (valid_len s - n) (pos_in_buf s + n) (g_consumed s + n)).
       assert (HR' : Rel s' (v_advance v n)).
       { pose proof (Inv_advance s n HI) as HI'. unfold advance in HI'.
         assert ((valid_len s <? n) = false) as E by (apply N.ltb_ge; exact Hn). rewrite E in HI'. cbn [fst] in HI'.
+        split; [|exact Hk].
         constructor; cbn [s' upd_adv v_advance src chunk_size g_delivered g_terminal io_error g_consumed g_mark valid_len
           vS vfail vcur vmark vtaken vknown vhwm]; auto; lia. }
       destruct (IH s' (v_advance v n) HR') as (r & Hr & Href).
       exists r. split; [apply ar_adv; assumption|exact Href].
     + exists AStuck. split; [apply ar_adv_stuck; exact Hgt|exact I].
-  - (* BufLenGe *)
-    pose proof HR as [HI HP HN HC HS HF Hcur Hm Hk Hh].
-    set (b := n <=? valid_len s).
-    assert (Hok : buflen_ok v n b).
-    { unfold buflen_ok, b. split.
-      - intros H. apply N.leb_le. lia.
-      - intros H. apply N.leb_le in H. rewrite HS, nlen_app, Hcur. pose proof (inv_count s HI). lia. }
-    assert (HR' : Rel s (v_buflen v n b)).
-    { constructor; cbn [v_buflen vS vfail vcur vmark vtaken vknown vhwm]; auto.
-      unfold b. destruct (n <=? valid_len s) eqn:E; [apply N.leb_le in E; lia|exact Hh]. }
-    destruct (IH b s (v_buflen v n b) HR') as (r & Hr & Href).
-    exists r. split; [eapply ar_buflen; eassumption|exact Href].
-  - (* Load8 *)
-    destruct (N.le_gt_cases (vcur v + off + 8) (vhwm v)) as [Hle|Hgt].
-    + pose proof HR as [HI HP HN HC HS HF Hcur Hm Hk Hh].
-      assert (Hn : off + 8 <= valid_len s) by lia.
-      assert ((off + 8 <=? valid_len s) = true) as -> by (apply N.leb_le; exact Hn).
-      rewrite (Rel_load8 s v off HR Hn).
-      destruct (IH (le_value (window (vS v) (vcur v + off) 8)) s v HR) as (r & Hr & Href).
-      exists r. split; [apply ar_load; assumption|exact Href].
-    + exists AStuck. split; [apply ar_load_stuck; exact Hgt|exact I].
+  - (* TryLoad8 *)
+    pose proof HR as [[HI HP HN HC HS HF Hcur Hm Hh] Hk].
+    destruct (off + 8 <=? valid_len s) eqn:Hn.
+    + apply N.leb_le in Hn.
+      rewrite (Rel_load8 s v off (proj1 HR) Hn).
+      set (o := Some (le_value (window (vS v) (vcur v + off) 8))).
+      assert (Hok : tryload_ok v off o).
+      { unfold tryload_ok, o, word_at. split; [|reflexivity].
+        rewrite HS, nlen_app, Hcur. pose proof (inv_count s HI). lia. }
+      assert (HR' : Rel s (v_loaded v off o)).
+      { split; [|exact Hk]. constructor; cbn [v_loaded o vS vfail vcur vmark vtaken vknown vhwm]; auto. lia. }
+      destruct (IH o s (v_loaded v off o) HR') as (r & Hr & Href).
+      exists r. split; [eapply ar_tryload; eassumption|exact Href].
+    + apply N.leb_gt in Hn.
+      assert (Hok : tryload_ok v off None) by (unfold tryload_ok; lia).
+      assert (HR' : Rel s (v_loaded v off None)).
+      { split; [|exact Hk]. constructor; cbn [v_loaded vS vfail vcur vmark vtaken vknown vhwm]; auto. }
+      destruct (IH None s (v_loaded v off None) HR') as (r & Hr & Href).
+      exists r. split; [eapply ar_tryload; eassumption|exact Href].
   - (* IsAtEnd *)
-    pose proof HR as [HI HP HN HC HS HF Hcur Hm Hk Hh].
-    assert (Hok : atend_ok v (is_at_end s)).
-    { unfold atend_ok, is_at_end. rewrite (inv_compl s HI). pose proof (inv_count s HI) as Hc. split.
-      - intros Hlt. destruct (g_terminal s) eqn:Ht; [|reflexivity]. cbn [andb].
-        apply N.eqb_neq. rewrite HS, app_nil_r, Hcur in Hlt. lia.
-      - intros Hkn Hge. rewrite (Hk Hkn) in *. cbn [andb]. apply N.eqb_eq.
-        rewrite HS, app_nil_r, Hcur in Hge. lia. }
-    destruct (IH (is_at_end s) s v HR) as (r & Hr & Href).
-    exists r. split; [eapply ar_atend; eassumption|exact Href].
+    pose proof HR as [[HI HP HN HC HS HF Hcur Hm Hh] Hk].
+    assert (Heq : is_at_end s = s_atend v).
+    { unfold is_at_end, s_atend. rewrite (inv_compl s HI), Hk. pose proof (inv_count s HI) as Hc.
+      destruct (g_terminal s) eqn:Ht; [|reflexivity]. cbn [andb]. rewrite HS, app_nil_r, Hcur.
+      destruct (valid_len s =? 0) eqn:E1; destruct (nlen (g_delivered s) <=? g_consumed s) eqn:E2; try reflexivity.
+      - apply N.eqb_eq in E1. apply N.leb_gt in E2. lia.
+      - apply N.eqb_neq in E1. apply N.leb_le in E2. lia. }
+    rewrite Heq. destruct (IH (s_atend v) s v HR) as (r & Hr & Href).
+    exists r. split; [constructor; exact Hr|exact Href].
   - (* ErrParked *)
-    pose proof HR as [HI HP HN HC HS HF Hcur Hm Hk Hh].
-    set (b := match io_error s with Some _ => true | None => false end).
-    assert (Hok : parked_ok v b).
-    { unfold parked_ok, b, v_err_now. split.
-      - intros Hb. destruct (io_error s) as [e|] eqn:He; [|discriminate].
-        destruct (g_terminal s) eqn:Ht.
-        + rewrite <- HF. discriminate.
-        + destruct HF as (_ & HF2 & _). congruence.
-      - intros Hkn Herr. rewrite (Hk Hkn) in HF. rewrite HF.
-        destruct (if vtaken v then None else vfail v); [reflexivity|congruence]. }
-    destruct (IH b s v HR) as (r & Hr & Href).
-    exists r. split; [eapply ar_parked; eassumption|exact Href].
+    pose proof HR as [[HI HP HN HC HS HF Hcur Hm Hh] Hk].
+    assert (Heq : match io_error s with Some _ => true | None => false end = s_parked v).
+    { unfold s_parked, v_err_now. rewrite Hk. destruct (g_terminal s) eqn:Ht.
+      - rewrite HF. reflexivity.
+      - destruct HF as (_ & HF2 & _). rewrite HF2. reflexivity. }
+    rewrite Heq. destruct (IH (s_parked v) s v HR) as (r & Hr & Href).
+    exists r. split; [constructor; exact Hr|exact Href].
   - (* TakeErr *)
-    pose proof HR as [HI HP HN HC HS HF Hcur Hm Hk Hh].
-    assert (Hok : take_ok v (io_error s)).
-    { unfold take_ok, v_err_now. split.
-      - intros e He. destruct (g_terminal s) eqn:Ht.
-        + rewrite <- HF. exact He.
-        + destruct HF as (_ & HF2 & _). congruence.
-      - intros Hkn. rewrite (Hk Hkn) in HF. exact HF. }
-    assert (HR' : Rel (clear_io_error s) (v_take v (io_error s))).
-    { constructor; cbn [clear_io_error v_take src chunk_size g_delivered g_terminal io_error g_consumed g_mark valid_len
+    pose proof HR as [[HI HP HN HC HS HF Hcur Hm Hh] Hk].
+    assert (Heq : io_error s = s_take v).
+    { unfold s_take, v_err_now. rewrite Hk. destruct (g_terminal s) eqn:Ht.
+      - exact HF.
+      - destruct HF as (_ & HF2 & _). exact HF2. }
+    assert (HR' : Rel (clear_io_error s) (v_take v (s_take v))).
+    { split; [|exact Hk].
+      constructor; cbn [clear_io_error v_take src chunk_size g_delivered g_terminal io_error g_consumed g_mark valid_len
         vS vfail vcur vmark vtaken vknown vhwm]; auto.
       - destruct HI as [a1 a2 a3 a4 a5 a6 a7 a8]. constructor; auto; try (cbn [clear_io_error io_error]; congruence).
-      - destruct (g_terminal s) eqn:Ht.
+      - rewrite <- Heq. destruct (g_terminal s) eqn:Ht.
         + destruct (io_error s) as [e|] eqn:He; [reflexivity|]. exact HF.
         + destruct HF as (HF1 & HF2 & HF3). rewrite HF2. auto. }
-    destruct (IH (io_error s) (clear_io_error s) (v_take v (io_error s)) HR') as (r & Hr & Href).
-    exists r. split; [eapply ar_take; eassumption|exact Href].
+    rewrite Heq. destruct (IH (s_take v) (clear_io_error s) (v_take v (s_take v)) HR') as (r & Hr & Href).
+    exists r. split; [constructor; exact Hr|exact Href].
   - (* SetMark *)
-    pose proof HR as [HI HP HN HC HS HF Hcur Hm Hk Hh].
+    pose proof HR as [[HI HP HN HC HS HF Hcur Hm Hh] Hk].
     assert (HR' : Rel (set_mark_in_buf s (pos_in_buf s) (g_consumed s)) (v_setmark v)).
-    { constructor; cbn [set_mark_in_buf v_setmark src chunk_size g_delivered g_terminal io_error g_consumed g_mark valid_len
+    { split; [|exact Hk].
+      constructor; cbn [set_mark_in_buf v_setmark src chunk_size g_delivered g_terminal io_error g_consumed g_mark valid_len
         vS vfail vcur vmark vtaken vknown vhwm]; auto; try (apply Inv_set_mark; exact HI). }
     destruct (IH _ _ HR') as (r & Hr & Href).
     exists r. split; [constructor; exact Hr|exact Href].
   - (* GetMark *)
-    pose proof HR as [HI HP HN HC HS HF Hcur Hm Hk Hh].
+    pose proof HR as [[HI HP HN HC HS HF Hcur Hm Hh] Hk].
     rewrite (inv_mark s HI), <- Hm.
     destruct (IH (vmark v mod W64) s v HR) as (r & Hr & Href).
     exists r. split; [constructor; exact Hr|exact Href].
   - (* GetPos *)
-    pose proof HR as [HI HP HN HC HS HF Hcur Hm Hk Hh].
+    pose proof HR as [[HI HP HN HC HS HF Hcur Hm Hh] Hk].
     rewrite (inv_pos s HI), <- Hcur.
     destruct (IH (vcur v mod W64) s v HR) as (r & Hr & Href).
     exists r. split; [constructor; exact Hr|exact Href].
